@@ -161,13 +161,11 @@ def run_cost_ref(ctx, case):
     converged) arguments.  A solve only ever sees the cost function, so agreement here plus the post-conditions on solved
     objects pins the whole pipeline."""
     rng = np.random.default_rng(case['seed'])
-    sp = G.gen_spec(rng, lengths=[64, 100, 128])
+    sp = G.gen_spec(rng, lengths=[64, 100, 128], eta_range=((1e-3, 0.4) if rng.random() < 0.7 else (1e-13, 1e-3)))
     if rng.random() < 0.15:
         sp = G.integer_grid(sp)
     if len(sp['types']) > 1 and rng.random() < 0.4:
-        kgrid = R.grids(sp['L'], sp['dr'])[1]
-        for (i, j), (a, b) in G.pairs(sp['types'], diagonal=False):
-            sp['om'][G.pk(a, b)] = {'t': 'ARR', 'w': (float(rng.uniform(0.1, 0.8)) * np.exp(-kgrid * float(rng.uniform(0.3, 1.0)))).tolist()}
+        G.add_cross_omegas(sp, rng)
     r = R.grids(sp['L'], sp['dr'])[0]
     for (i, j), (a, b) in G.pairs(sp['types']):
         ps = sp['pot'][G.pk(a, b)]
@@ -226,9 +224,7 @@ def run_case(ctx, case):
     if case.get('intgrid'):
         sp = G.integer_grid(sp)
     if case['cross'] and len(sp['types']) > 1:
-        kgrid = R.grids(sp['L'], sp['dr'])[1]
-        for (i, j), (a, b) in G.pairs(sp['types'], diagonal=False):
-            sp['om'][G.pk(a, b)] = {'t': 'ARR', 'w': (float(rng.uniform(0.1, 0.8)) * np.exp(-kgrid * float(rng.uniform(0.3, 1.0)))).tolist()}
+        G.add_cross_omegas(sp, rng)
     n = len(sp['types'])
     sp['via'] = case.get('via', 'dr') if not case.get('intgrid') else 'dr'
     sp['kT_via'] = case.get('kT_via', 'ctor')
